@@ -1,4 +1,5 @@
 import Mimium.Model.RustGen
+import Mimium.Model.MirLayout
 /-! Text formats shared with `harness/src/bin/c18.rs` (control skeleton of the MIR) and `tools/props/c18.py`
 (canonical form of the dispatch loop parsed back from the generated Rust text; traces of state operations). -/
 namespace Mimium.RustGen
@@ -68,15 +69,34 @@ def Body.show : Body → String
   | .straight st => "S:" ++ showArm st
   | .loop arms => "L:" ++ "|".intercalate (arms.map showArm)
 
-/-- model side of a `cfg` line: `<nested 0|1> \t <encoding | refuse>` -/
+def showArms (as : List Arm) : String :=
+  if as.isEmpty then "." else ",".intercalate (as.map fun a => s!"{a.start}-{a.stop}-{a.merge}")
+
+/-- model side of a `cfg` line: `<nested 0|1> \t <encoding | refuse> \t <arms in visiting order>` -/
 def cfgLine (s : String) : String :=
   match parseCfg s with
   | none => "bad-input"
   | some bs =>
     let n := if nested bs then "1" else "0"
     match encode bs with
-    | some b => s!"{n}\t{b.show}"
-    | none => s!"{n}\trefuse"
+    | some b => s!"{n}\t{b.show}\t{showArms (arms bs)}"
+    | none => s!"{n}\trefuse\t{showArms (arms bs)}"
+
+/-- prefix notation of `Sh`: `L` leaf, `N` noarm, `S a b`, `I c t e`, `W s arms`, `A a rest` -/
+partial def parseSh : List Char → Option (Sh × List Char)
+  | 'L' :: r => some (.leaf, r)
+  | 'N' :: r => some (.noarm, r)
+  | 'S' :: r => do let (a, r) ← parseSh r; let (b, r) ← parseSh r; some (.seq a b, r)
+  | 'I' :: r => do let (c, r) ← parseSh r; let (t, r) ← parseSh r; let (e, r) ← parseSh r; some (.ite c t e, r)
+  | 'W' :: r => do let (a, r) ← parseSh r; let (b, r) ← parseSh r; some (.sw a b, r)
+  | 'A' :: r => do let (a, r) ← parseSh r; let (b, r) ← parseSh r; some (.arm a b, r)
+  | _ => none
+
+/-- model side of a `lay` line: the arms mirgen's block numbering gives this expression shape, from block 0 -/
+def layLine (s : String) : String :=
+  match parseSh s.toList with
+  | some (sh, []) => showArms (lay sh 0).arms
+  | _ => "bad-input"
 
 def hexVal (c : Char) : Nat :=
   if c.isDigit then c.toNat - 48 else if 'a' ≤ c ∧ c ≤ 'f' then c.toNat - 87 else if 'A' ≤ c ∧ c ≤ 'F' then c.toNat - 55 else 0
